@@ -13,8 +13,28 @@ def run(tier, rep):
     rep.assumptions += [
         "day 0 = 1970-01-01 is a Thursday and the civil successor with the Gregorian leap rule define the calendar; "
         "the closed forms used by the judge are proved equal to that walker by TLC on the eras listed in the evidence",
-        "quick tier sweeps years -800..800, both ends of the year range and three years around every 400-year era start; "
+        "quick tier sweeps years -800..800 (year 0), 1900..2100 (day 0), both ends of the year range and three years around every 400-year era start; "
         "the thorough tier sweeps every sys_days of years -32767..32767",
         "arithmetic is driven on results that stay inside years -32767..32767 (outside, the standard leaves the value unspecified)",
         "the TLA+ reading of std::chrono is calibrated against libstdc++ on the identical inputs (zero deviations required)",
     ]
+
+
+def replay(path):
+    """Re-execute the recorded deviation: the inputs are enumerated by TLC (no randomness), so the whole etl side of
+    the tier is re-run on the current tree and the recorded event is looked up among the deviations.
+    Exit 1 (VIOLATION line) if it deviates again, 0 if the current tree no longer shows it."""
+    import json
+    import vlib
+    rec = json.load(open(path))
+    tier = os.environ.get("VERIF_TIER", "quick")
+    rep = vlib.Report("C11", tier)
+    calendar.pipeline(tier, rep, calibrate=False, walk=False)
+    same = [d for d in rep.devs if d.get("ev") == rec.get("event")]
+    if same:
+        print("VIOLATION property=C11 replay=%s" % path)
+        print("  kind=%s expected=%s" % (same[0]["kind"], json.dumps(same[0].get("expected"))[:300]))
+        return 1
+    print("not reproduced on this tree in tier %s (%d events validated, %d other deviation(s))"
+          % (tier, rep.cov["events_validated"], len(rep.devs)))
+    return 0
